@@ -39,3 +39,40 @@ func VerifC08_OneTokenOneReply() {
 	}
 	verifReach("end")
 }
+
+// Keys a datagram leaves out altogether: nothing carries over from the datagram handled before it. After
+// a first datagram (a ping, or an unsolicited response) a second one arrives, from the same or another
+// source, that is a well-formed ping except that it has no "y" key - not a query: nothing is sent - or
+// no "t" key - answered, if at all, with an empty transaction ID, never with the previous datagram's.
+func VerifC08_MissingKeys() {
+	verifLimiterAlwaysGrants()
+	v := verifStartServer(verifSrvOpt{noSecurity: true})
+	s1 := &net.UDPAddr{IP: net.IP{192, 0, 2, 1}, Port: 1001}
+	s2 := s1
+	if verifNondetBool() {
+		s2 = &net.UDPAddr{IP: net.IP{192, 0, 2, 2}, Port: 1002}
+	}
+	first := krpc.Msg{Q: "ping", Y: "q", T: "aa", A: &krpc.MsgArgs{ID: verifPeerID(v.id, []int{0}, false)}}
+	if verifNondetBool() {
+		first = krpc.Msg{Y: "r", T: "bb", R: &krpc.Return{ID: verifPeerID(v.id, []int{0}, false)}}
+	}
+	v.sock.deliver(verifEncode(first, 60), s1)
+	before, attempts := len(v.sock.sent), v.sock.attempts
+	second := krpc.Msg{Q: "ping", Y: "q", T: "zz", A: &krpc.MsgArgs{ID: verifPeerID(v.id, []int{1}, false)}}
+	if verifNondetBool() {
+		v.sock.deliver(verifEncodeWithout(second, 60, "y"), s2)
+		verifAssert(len(v.sock.sent) == before && v.sock.attempts == attempts, "C08: nothing is sent in reaction to a datagram without a message type, whatever was handled before it")
+		verifReach("no-y")
+	} else {
+		v.sock.deliver(verifEncodeWithout(second, 60, "t"), s2)
+		n := 0
+		for _, w := range v.sock.sent[before:] {
+			n++
+			verifAssert(verifSameUDP(w.addr, s2), "C08: the reply goes to the asker")
+			verifAssert(w.msg.T == "", "C08: a query without a transaction ID is answered with an empty one, not with an earlier datagram's")
+		}
+		verifAssert(n <= 1, "C08: at most one datagram answers a query")
+		verifReach("no-t")
+	}
+	verifReach("end")
+}
